@@ -143,6 +143,14 @@ def is_noise(stmt):
     """Statements without bearing on any property: docstrings, imports, pass, logging / print calls."""
     if isinstance(stmt, (ast.Import, ast.ImportFrom, ast.Pass)):
         return True
+    if isinstance(stmt, ast.Assert):
+        # documentation-style assertions on a local: `assert x is not None`, `assert isinstance(x, T)`
+        t = stmt.test
+        if isinstance(t, ast.Compare) and len(t.ops) == 1 and isinstance(t.ops[0], ast.IsNot) and isinstance(t.left, ast.Name) and \
+                isinstance(t.comparators[0], ast.Constant) and t.comparators[0].value is None:
+            return True
+        if isinstance(t, ast.Call) and isinstance(t.func, ast.Name) and t.func.id == 'isinstance' and t.args and isinstance(t.args[0], ast.Name):
+            return True
     if isinstance(stmt, ast.Expr):
         v = stmt.value
         if isinstance(v, ast.Constant):
@@ -330,3 +338,75 @@ def dispatch_table(func, key_text):
                     for k_, v_ in zip(tbl.keys, tbl.values):
                         out[norm(k_)] = (norm(v_), [norm(a) for a in c.args])
     return out
+
+
+def callable_parts(klass, expr):
+    """(first parameter name, [nodes of the body]) of a callable handed over as a value: a lambda, or a method / static function of
+    ``klass`` referenced as ``self.name`` / ``Class.name`` whose first parameter (after self) receives the argument; None otherwise."""
+    if isinstance(expr, ast.Lambda):
+        if not expr.args.args:
+            return None
+        return expr.args.args[0].arg, [expr.body]
+    if isinstance(expr, ast.Attribute) and isinstance(expr.value, ast.Name) and klass is not None and klass.has(expr.attr):
+        f = klass.method(expr.attr)
+        static = any(isinstance(d, ast.Name) and d.id == 'staticmethod' for d in f.node.decorator_list)
+        ps = f.params if static else f.params[1:]
+        if not ps:
+            return None
+        return ps[0], list(f.node.body)
+    return None
+
+
+def symbolic_table(module, expr, _depth=0):
+    """[(key node, value node)] of a module-level constant look-up table, evaluated symbolically: a dict literal, dict(pairs), or a
+    dict comprehension over a constant tuple/list of rows (itself possibly a module constant).  None when ``expr`` is none of these."""
+    if _depth > 4:
+        return None
+    if isinstance(expr, ast.Name) and expr.id in module.consts:
+        return symbolic_table(module, module.consts[expr.id], _depth + 1)
+    if isinstance(expr, ast.Dict) and all(k is not None for k in expr.keys):
+        return list(zip(expr.keys, expr.values))
+
+    def rows_of(e):
+        if isinstance(e, ast.Name) and e.id in module.consts:
+            return rows_of(module.consts[e.id])
+        if isinstance(e, (ast.Tuple, ast.List)) and all(isinstance(r, (ast.Tuple, ast.List)) for r in e.elts):
+            return [list(r.elts) for r in e.elts]
+        if isinstance(e, ast.Call) and isinstance(e.func, ast.Attribute) and e.func.attr == 'items' and not e.args:
+            t = symbolic_table(module, e.func.value, _depth + 1)
+            return [list(kv) for kv in t] if t is not None else None
+        return None
+    if isinstance(expr, ast.DictComp) and len(expr.generators) == 1 and not expr.generators[0].ifs:
+        g = expr.generators[0]
+        rows = rows_of(g.iter)
+        if rows is None or not isinstance(g.target, (ast.Tuple, ast.List)) or not all(isinstance(t, ast.Name) for t in g.target.elts):
+            return None
+        names = [t.id for t in g.target.elts]
+        out = []
+        for r in rows:
+            if len(r) != len(names):
+                return None
+            env = dict(zip(names, r))
+            k = env.get(expr.key.id) if isinstance(expr.key, ast.Name) else None
+            v = env.get(expr.value.id) if isinstance(expr.value, ast.Name) else None
+            if k is None or v is None:
+                return None
+            out.append((k, v))
+        return out
+    if isinstance(expr, ast.Call) and isinstance(expr.func, ast.Name) and expr.func.id == 'dict' and len(expr.args) == 1 and not expr.keywords:
+        rows = rows_of(expr.args[0])
+        if rows is not None and all(len(r) == 2 for r in rows):
+            return [(r[0], r[1]) for r in rows]
+    return None
+
+
+def table_lookup(module, expr):
+    """(table as [(key node, value node)], looked-up key node, default node or None) for ``T[key]`` / ``T.get(key[, default])`` on a
+    module-level constant table; None otherwise."""
+    if isinstance(expr, ast.Subscript):
+        t = symbolic_table(module, expr.value)
+        return (t, expr.slice, None) if t is not None else None
+    if isinstance(expr, ast.Call) and isinstance(expr.func, ast.Attribute) and expr.func.attr == 'get' and 1 <= len(expr.args) <= 2 and not expr.keywords:
+        t = symbolic_table(module, expr.func.value)
+        return (t, expr.args[0], expr.args[1] if len(expr.args) == 2 else ast.Constant(value=None)) if t is not None else None
+    return None
